@@ -1,7 +1,7 @@
 /-
 System level: set operations (every `Set` method is the `Map<T, (), N>` method it
-forwards to), operations that involve two registers, fault injection, end of case,
-and `step` / `run`.
+forwards to), operations that involve two registers (among them `a.extend(b)` with the set `b`
+moved in: `extendFromLoop` / `extendFrom`), fault injection, end of case, and `step` / `run`.
 -/
 import Micromap.Model.Step
 
@@ -172,6 +172,7 @@ def stepSetOp (R : Render K Unit) (other : Nat → Raw K Unit) : SetOp K Q → S
   | .drop => do dropAndRenew E; pure .unit
   | .forget => do forgetMap; pure .unit
   | .serde _ => pure .unit
+  | .extend_from _ => pure .unit          -- handled at the system level (two registers)
 
 end
 
@@ -207,6 +208,57 @@ def assignSet (sys : Sys K V Q) (dst cap : Nat) (build : SM K Unit Q Unit) : Res
     | .ub => .ub
     | .panic c s' => .panic c { sys with sets := updReg sys.sets dst s.r, w := sys.w.mergeUnit s'.w }
     | .ok _ s' => .ok () { sys with sets := updReg sys.sets dst s.r, w := sys.w.mergeUnit s'.w }
+
+/-! ### `a.extend(b)` with `b` a set that is moved in
+
+`impl Extend<T> for Set<T, N>` is `iter.into_iter().for_each(|item| { self.insert(item); })`.  With
+`iter` another `Set<T, M>`, `into_iter()` is `SetIntoIter` (a wrapper of `IntoKeys<T, (), M>`) and
+`for_each` is std's `fold`: `while let Some(k) = it.next() { self.insert(k); }`.  Two registers are
+involved — the source (the iterator owns it) and the destination — and they share one world. -/
+
+/-- the loop of `dst.extend(src)`: `rs` is the source register (what the consuming iterator still
+    owns), `sd` the destination register together with the world.  `IntoKeys::next` pops from the
+    END of the source; the key goes into `insert` on the destination.  If `insert` unwinds (the
+    destination is full, or the user's `==` panicked) the key moved into it is handled by `insert`'s
+    own unwinding, and the iterator — the rest of the source — is dropped during the unwinding
+    (`dropAndRenew` with injection suppressed, exactly as `unwindWith` runs a clean-up; a panic in
+    that clean-up would abort the process: `ub`).  (`IntoKeys::next` itself cannot unwind for
+    `V = ()`: there is no drop glue for the discarded half.)  `fuel` = number of `next` calls
+    allowed; `len + 1` suffices. -/
+def extendFromLoop (F : Env K Unit Q) : Nat → Raw K Unit → St K Unit Q →
+    Res (Raw K Unit × St K Unit Q) Unit
+  | 0, rs, sd => .ok () (rs, sd)
+  | n + 1, rs, sd =>
+    match intoIterNextK F .keys ⟨rs, sd.w⟩ with
+    | .ub => .ub
+    | .panic c s1 => .panic c (s1.r, { sd with w := s1.w })
+    | .ok o s1 =>
+      match o with
+      | none => .ok () (s1.r, { sd with w := s1.w })
+      | some p =>
+        match insert F p.1 () ⟨sd.r, s1.w⟩ with
+        | .ub => .ub
+        | .ok _ s2 => extendFromLoop F n s1.r s2
+        | .panic c s2 =>
+          match dropAndRenew F ((⟨s1.r, s2.w⟩ : St K Unit Q).setUnw true) with
+          | .ok _ s3 => .panic c (s3.r, { s2 with w := (s3.setUnw s2.w.unwinding).w })
+          | _ => .ub
+
+/-- the system after `extend_from`: source register `j`, destination register `i`, world. -/
+def extendFin (sys : Sys K V Q) (i j : Nat) (rs rd : Raw K Unit) (u : World K Unit Q) : Sys K V Q :=
+  { sys with sets := updReg (updReg sys.sets j rs) i rd, w := sys.w.mergeUnit u }
+
+/-- `sets[i].extend(sets[j])`, `i ≠ j`: the loop, then — at the normal end — the drop of the
+    exhausted iterator; the harness leaves a fresh `new()` in the source register. -/
+def extendFrom (sys : Sys K V Q) (i j : Nat) : Res (Sys K V Q) Unit :=
+  match extendFromLoop E.toUnit ((sys.sets j).len + 1) (sys.sets j) ⟨sys.sets i, sys.w.toUnit⟩ with
+  | .ub => .ub
+  | .panic c x => .panic c (extendFin sys i j x.1 x.2.r x.2.w)
+  | .ok _ x =>
+    match dropAndRenew E.toUnit ⟨x.1, x.2.w⟩ with
+    | .ok _ s4 => .ok () (extendFin sys i j s4.r x.2.r s4.w)
+    | .panic c s4 => .panic c (extendFin sys i j s4.r x.2.r s4.w)
+    | .ub => .ub
 
 /-- what the caller sees of a token stream: the announced length and the number of entries. -/
 def Tok.isEntry {K V : Type} : Tok K V → Bool
@@ -258,6 +310,12 @@ def stepCore (sys : Sys K V Q) : Op K V Q → Res (Sys K V Q) (RV K V)
       let a := sys.sets reg
       match assignSet E sys dst a.cap (subInto E.toUnit a (sys.sets o)) with
       | .ok _ s => .ok .unit s | .panic c s => .panic c s | .ub => .ub
+    | .extend_from o =>
+      -- `a.extend(a)` cannot be written (a set cannot be moved into its own `&mut self` method):
+      -- the operation text is ignored
+      if o = reg then .ok .unit sys else
+      match extendFrom E sys reg o with
+      | .ok _ s => .ok .unit s | .panic c s => .panic c s | .ub => .ub
     | op =>
       match runOnSet sys reg (stepSetOp E.toUnit R.toUnit sys.sets op) with
       | .ok a s => .ok a.castU s | .panic c s => .panic c s | .ub => .ub
@@ -283,6 +341,7 @@ def touched : Op K V Q → List Nat × List Nat
   | .set reg (.is_superset o) => ([], [reg, o])
   | .set reg (.is_disjoint o) => ([], [reg, o])
   | .set reg (.sub o dst) => ([], [reg, o, dst])
+  | .set reg (.extend_from o) => ([], [reg, o])
   | .set reg _ => ([], [reg])
   | .umap reg (.eq o) => ([], [reg, o])
   | .umap reg _ => ([], [reg])
